@@ -3,10 +3,6 @@ From ZK Require Import Cl ClArith ClSig ClMore ClGroup ClBoudot ModelLemmas ClSp
 From Coq Require Import ZArith Lia Znumtheory Zpow_facts Zdiv Sorting.Sorted Setoid Morphisms Ring.
 Open Scope Z_scope.
 
-(* what is assumed of the logged randomness: a draw made by random_bits (kind 0) is not negative.  Draws of the other
-   kinds (rand_int may be negative) are not constrained. *)
-Definition bits_ok (d : draw) : Prop := d_kind d = 0%N -> 0 <= d_val d.
-
 (* ---------------------------------------------------------------- prover-side building blocks *)
 Section Prover.
   Variable CS : clsuite.
@@ -29,15 +25,6 @@ Section Prover.
 
   Lemma all_idx_none n : all_idx n None = map N.of_nat (seq 0 n).
   Proof. reflexivity. Qed.
-
-  Lemma random_bits_nonneg k ds r ds' : Forall bits_ok ds -> random_bits k ds = Ok (r, ds') ->
-    0 <= r /\ Forall bits_ok ds'.
-  Proof.
-    intros Hd H. unfold random_bits in H. destruct (Z.leb_spec k 0); [discriminate|]. unfold draw_req in H.
-    destruct ds as [|d rest]; [discriminate|]. destruct (N.eqb_spec (d_kind d) 0) as [Hk|]; [|discriminate].
-    destruct (zlist_eqb _ _); [|discriminate]. cbn [andb] in H. inversion H; subst. inversion Hd as [|? ? Hd0 Hdr]; subst.
-    split; [apply Hd0; exact Hk|exact Hdr].
-  Qed.
 
   (* commit_with_commitment_pk over all messages: value = prod g_i^m_i * h^r mod N *)
   Lemma commit_with_cpk_all msgs ck ds c ds' :
